@@ -501,6 +501,7 @@ tdigest<T, A> tdigest<T, A>::deserialize_compat(std::istream& is, const A& alloc
       c = centroid(mean, weight);
       total_weight += weight;
     }
+    if (!is.good()) throw std::runtime_error("error reading from std::istream");
     return tdigest(false, k, min, max, std::move(centroids), total_weight, vector_t(allocator));
   }
   // COMPAT_FLOAT: compatibility with asSmallBytes()
@@ -519,6 +520,7 @@ tdigest<T, A> tdigest<T, A>::deserialize_compat(std::istream& is, const A& alloc
     c = centroid(mean, weight);
     total_weight += weight;
   }
+  if (!is.good()) throw std::runtime_error("error reading from std::istream");
   return tdigest(false, k, min, max, std::move(centroids), total_weight, vector_t(allocator));
 }
 
